@@ -450,10 +450,14 @@ class Queue(Greenlet):
             self.store.remove(id)
 
     def _dequeue(self, id):
+        # The id stays in queued_ids while the message is being fetched, so
+        # that a second announcement of it is not scheduled in the meantime.
         try:
             envelope, attempts = self.store.get(id)
         except KeyError:
             return
+        finally:
+            self.queued_ids.discard(id)
         if id not in self.active_ids:
             self.active_ids.add(id)
             self._pool_spawn('relay', self._attempt, id, envelope, attempts)
@@ -466,7 +470,6 @@ class Queue(Greenlet):
             if now < timestamp:
                 break
             del self.queued[0]
-            self.queued_ids.discard(entry_id)
             self._pool_spawn('store', self._dequeue, entry_id)
 
     def _wait_store(self):
@@ -503,7 +506,6 @@ class Queue(Greenlet):
         self.queued_lock.acquire()
         try:
             waiting, self.queued = self.queued, []
-            self.queued_ids = set()
             for entry in waiting:
                 self._pool_spawn('store', self._dequeue, entry[1])
         finally:
